@@ -302,8 +302,8 @@ EnergyStep(ev) ==
         pr == o.pr
         ex == Force(Energy(o.C, pr.s, pr.T))
         ab == Force(EnergyAbs(o.C, pr.s, pr.T))
-        got == H(ev.out.val)
-        info == [order |-> o.order, dim |-> o.dim, N |-> NSeg(pr), got |-> RShow(got), want |-> RShow(ex)]
+        got == IF RIsFiniteHex(ev.out.val) THEN H(ev.out.val) ELSE H("0x0p+0")   \* a NaN/Inf answer is judged by energy.finite, not parsed
+        info == [order |-> o.order, dim |-> o.dim, N |-> NSeg(pr), got |-> IF RIsFiniteHex(ev.out.val) THEN RShow(got) ELSE ev.out.val, want |-> RShow(ex)]
         key == <<"energy", o.key>>
         cands == IF RIsFiniteHex(ev.out.val) /\ AllPos(pr.T)
                  THEN <<CandM("C04", "energy.value", RAbs(RSub(got, ex)), RAdd(RMul(Tol9, ab), Tiny), info),
